@@ -66,7 +66,7 @@ extern int mpt_lattr_set(MPT_STRUCT(lineattr) *attr, int width, int style, int s
 static int lattr_pset(unsigned char *val, MPT_INTERFACE(convertable) *src, int def[3])
 {
 	int len;
-	uint8_t sym;
+	uint8_t sym = *val;
 	
 	if (!src) {
 		*val = def[0];
